@@ -368,6 +368,10 @@ fn lattice_len(rng: &mut Rng, cap: usize) -> usize {
 
 fn lattice_uint(rng: &mut Rng, max: u64) -> u64 {
     let cands = [0u64, 1, 23, 24, 255, 256, 65535, 65536, max - 1, max];
+    // most unsigned CTAP members are small enumerators (protocol versions 1/2, policies 1..3, flags)
+    if rng.chance(1, 3) {
+        return 1 + rng.below(4);
+    }
     if rng.chance(2, 3) {
         let c = *rng.pick(&cands);
         c.min(max)
